@@ -9,6 +9,8 @@
 #include <stdlib.h>
 #include <string.h>
 #include "vh.h"
+/* forward declarations for the native replay (calls are rebound textually there) */
+struct eventrec; struct eventrec * vh_rec_malloc(void); void vh_rec_free(struct eventrec *);
 #include "events.c"
 #ifndef MAXD
 #define MAXD 4
